@@ -90,15 +90,18 @@ Definition block_config (body : list (str * str)) : dict := fold_left parse_line
 
 (* ---- Host patterns --------------------------------------------------------------------- *)
 (* _pattern_matches over a list of patterns *)
+(* pattern.startswith("!") -> Some pattern[1:] *)
+Definition negated (p : str) : option str :=
+  match p with c :: q => if c =? 33 then Some q else None | [] => None end.
+(* pattern.startswith("!") and fnmatch(target, pattern[1:]) *)
+Definition neg_hit (p t : str) : bool :=
+  match negated p with Some q => glob q t | None => false end.
 Fixpoint pm_from (m : bool) (ps : list str) (t : str) : bool :=
   match ps with
   | [] => m
   | p :: r =>
-      match p with
-      | 33 :: q => if glob q t then false
-                   else if glob p t then pm_from true r t else pm_from m r t
-      | _ => if glob p t then pm_from true r t else pm_from m r t
-      end
+      if neg_hit p t then false
+      else if glob p t then pm_from true r t else pm_from m r t
   end.
 Definition pattern_matches (ps : list str) (t : str) : bool := pm_from false ps t.
 
@@ -393,6 +396,11 @@ Fixpoint collected (e : env) (target : str) (canonical final : bool) (cfg : list
       else collected e target canonical final r opts
   end.
 
+Inductive Subseq {A : Type} : list A -> list A -> Prop :=
+| S_nil : Subseq [] []
+| S_skip x a b : Subseq a b -> Subseq a (x :: b)
+| S_keep x a b : Subseq a b -> Subseq (x :: a) (x :: b).
+
 (* ---- token segments (used by C40_tokens) ---------------------------------------------------- *)
 Inductive seg := Ch (c : Z) | Tok (c : Z) | Tilde.
 Definition render_seg (s : seg) : str :=
@@ -409,6 +417,10 @@ Definition expand_seg (e : env) (cfg : dict) (target key : str) (s : seg) : str 
   | Tok c => if mem_str [37; c] (allowed_tokens key) then token_text e cfg target key [37; c] else [37; c]
   | Tilde => if mem_str [126] (allowed_tokens key) then e_home e else [126]
   end.
+
+(* every text substituted under `key` is itself free of % and ~ *)
+Definition texts_clean (e : env) (cfg : dict) (target key : str) : bool :=
+  forallb (fun tok => clean (token_text e cfg target key tok)) replacement_order.
 
 (* ---- canonical encodings for the correspondence ---------------------------------------------- *)
 Definition zlen {A} (l : list A) : Z := Z.of_nat (length l).
@@ -469,6 +481,35 @@ Definition run_hostnames_v0 (c : list (str * str) * list block) : list Z :=
   | Raise x => [exn_code x]
   end.
 
+(* one case per config: get_hostnames, then one lookup per host *)
+Definition run_config (c : (str * str * str * str) * list (str * str) * list block * list str) : list Z :=
+  let '(t, global, blocks, hosts) := c in
+  let hn := run_hostnames (global, blocks) in
+  zlen hn :: hn ++ flat_map (fun h => let r := run_lookup (t, global, blocks, h) in zlen r :: r) hosts.
+
 Definition run_glob (c : str * str) : list Z := [if glob (fst c) (snd c) then 1 else 0].
 Definition run_pattern_matches (c : list str * str) : list Z :=
   [if pattern_matches (fst c) (snd c) then 1 else 0].
+
+(* _pattern_matches on a pattern list, and fnmatch on its first pattern *)
+Definition run_match (c : list str * str) : list Z :=
+  [if pattern_matches (fst c) (snd c) then 1 else 0; if glob (hd [] (fst c)) (snd c) then 1 else 0].
+
+(* ---- compact case literals: a string travels as one number (0x01 followed by its bytes) -------- *)
+Fixpoint unz_go (fuel : nat) (n : Z) (acc : str) : str :=
+  match fuel with
+  | O => acc
+  | S f => if n <=? 1 then acc else unz_go f (n / 256) (n mod 256 :: acc)
+  end.
+Definition unz (n : Z) : str := unz_go (Z.to_nat (Z.min 4096 (Z.log2 n / 8 + 1))) n [].
+Inductive zhdr := ZHost (ps : list Z) | ZMatch (cs : list (ctype * bool * Z)).
+Definition unz_body (b : list (Z * Z)) : list (str * str) := map (fun kv => (unz (fst kv), unz (snd kv))) b.
+Definition unz_block (zb : zhdr * list (Z * Z)) : block :=
+  Blk (match fst zb with
+       | ZHost ps => HHost (map unz ps)
+       | ZMatch cs => HMatch (map (fun c => Crit (fst (fst c)) (snd (fst c)) (unz (snd c))) cs)
+       end) (unz_body (snd zb)).
+Definition run_config_z (c : (Z * Z * Z * Z) * list (Z * Z) * list (zhdr * list (Z * Z)) * list Z) : list Z :=
+  let '((u, gh, fq, home), global, blocks, hosts) := c in
+  run_config ((unz u, unz gh, unz fq, unz home), unz_body global, map unz_block blocks, map unz hosts).
+Definition run_match_z (c : list Z * Z) : list Z := run_match (map unz (fst c), unz (snd c)).
